@@ -56,7 +56,7 @@ BOUNDS = {
     'thorough': {'skeletons': 'all with a same-scale or fixed-range op',
                  'recipe pairs': 'same', 'scenarios': 5},
 }
-REACH = {'hist': ['history'], 'bytes': ['bytes']}
+REACH = {'hist': ['history'], 'bytes': ['bytes'], 'hashseed': ['hashseed']}
 SKELS = ['chain_fc_reshape_softmax', 'softmax_reshape', 'chain_reshape_reshape',
          'tanh_concat_same', 'chain_tanh_fc', 'split_add',
          'intermediate_is_output', 'two_subgraphs_independent']
@@ -345,8 +345,7 @@ def jobs(tier, seed):
   for i in range(0, len(bs), 2):
     js.append(Job(f'bytes:{i // 2}', job_bytes, {'tier': tier,
                                                  'skeletons': bs[i:i + 2]}))
-  if tier == 'thorough':
-    js.append(Job('hashseed', job_hashseed, {}))
+  js.append(Job('hashseed', job_hashseed, {'tier': tier}))
   return js
 
 
@@ -479,31 +478,91 @@ def job_bytes(job):
       'bytes equal to a fresh Quantizer'])
 
 
+_HASH_CODE = r"""
+import sys, pickle, hashlib
+import numpy as np
+steps = pickle.loads(sys.stdin.buffer.read())
+from ai_edge_quantizer import quantizer
+out = []
+for mb, recipe, qsvs in steps:
+  try:
+    with np.errstate(all='ignore'):
+      b = bytes(quantizer.Quantizer(mb, recipe).quantize(qsvs).quantized_model)
+    out.append(hashlib.sha256(b).hexdigest())
+  except Exception as ex:
+    out.append(f'{type(ex).__name__}')
+sys.stdout.buffer.write(b'@@RESULT@@' + pickle.dumps(out))
+"""
+HASH_SKELS = ['fc_fc', 'chain_fc_reshape_softmax', 'tensor_2_consumers',
+              'two_subgraphs_independent', 'diamond']
+HASH_SEEDS = ('0', '1', '4242')
+
+
+def _hashseed_steps(tier):
+  fam = P.skeleton_family(tier)
+  steps, names = [], []
+  for skel in HASH_SKELS:
+    mb = fam[skel]
+    inp = flatbuffer_utils.read_model_from_bytearray(bytearray(mb))
+    recs = recipes(mb)
+    recs['DRQ'] = [P.rule('.*', '*', 'DRQ')]
+    qsvs = P.concrete_qsvs(inp, None)
+    for rname, rec in recs.items():
+      steps.append((bytes(mb), copy.deepcopy(rec), copy.deepcopy(qsvs)))
+      names.append(f'{skel}/{rname}')
+  return steps, names
+
+
+def _hashseed_run(steps):
+  import os as _os, pickle, subprocess, sys
+  procs = []
+  for seed in HASH_SEEDS:
+    env = dict(_os.environ, PYTHONPATH='/repo', TF_CPP_MIN_LOG_LEVEL='3',
+               PYTHONHASHSEED=seed)
+    env.pop('AI_EDGE_QUANTIZER_VERIF', None)
+    p = subprocess.Popen([sys.executable, '-W', 'ignore', '-c', _HASH_CODE],
+                         stdin=subprocess.PIPE, stdout=subprocess.PIPE,
+                         stderr=subprocess.PIPE, env=env)
+    procs.append(p)
+  payload = pickle.dumps(steps)
+  import threading
+  outs = [None] * len(procs)
+
+  def feed(i, p):
+    outs[i] = p.communicate(payload)
+  ts = [threading.Thread(target=feed, args=(i, p)) for i, p in enumerate(procs)]
+  for t in ts:
+    t.start()
+  for t in ts:
+    t.join()
+  res = []
+  for (so, se) in outs:
+    if b'@@RESULT@@' not in so:
+      raise Inconclusive('hash-seed process failed: ' + se.decode()[-200:])
+    res.append(pickle.loads(so.split(b'@@RESULT@@', 1)[1]))
+  return res
+
+
 def job_hashseed(job):
-  """Concrete: sha256 of quantize() output in two fresh processes with
-  different PYTHONHASHSEED (outside the symbolic claim; reported only)."""
-  import subprocess, sys, hashlib
-  code = ('import sys,hashlib;sys.path.insert(0,"/repo");'
-          'from ai_edge_quantizer import quantizer;'
-          'q=quantizer.Quantizer("/repo/ai_edge_quantizer/tests/models/'
-          'branching_conv_fc.tflite","/repo/ai_edge_quantizer/recipes/'
-          'dynamic_wi8_afp32_recipe.json");'
-          'print(hashlib.sha256(bytes(q.quantize().quantized_model)).hexdigest())')
-  hs = []
-  for seed in ('1', '4242'):
-    env = dict(__import__('os').environ, PYTHONHASHSEED=seed,
-               TF_CPP_MIN_LOG_LEVEL='3')
-    r = subprocess.run(['/venv/bin/python', '-c', code], capture_output=True,
-                       text=True, env=env)
-    hs.append(r.stdout.strip().splitlines()[-1] if r.stdout.strip() else
-              'ERR ' + r.stderr[-100:])
-  ok = hs[0] == hs[1] and not hs[0].startswith('ERR')
-  st = {'paths': 2, 'decisions': 2, 'obligations': 1, 'discharged': int(ok),
-        'solver_calls': 0, 'solver_time': 0.0, 'reached': {}}
-  cands = [] if ok else [Candidate('C14.process.hash_seed_independent',
-                                   {'hashes': hs, 'concrete': True})]
+  """Really fresh interpreter processes under different PYTHONHASHSEED: the
+  bytes quantize() returns for equal arguments are identical (a set or dict
+  iteration order leaking into the output cannot be seen inside one
+  process)."""
+  steps, names = _hashseed_steps(job.args.get('tier', 'quick'))
+  res = _hashseed_run(steps)
+  bad = [names[i] for i in range(len(names))
+         if len({r[i] for r in res}) != 1]
+  n = len(names)
+  st = {'paths': n * len(HASH_SEEDS), 'decisions': n, 'obligations': n,
+        'discharged': n - len(bad), 'solver_calls': 0, 'solver_time': 0.0,
+        'reached': {'hashseed': n}}
+  cands = [Candidate('C14.process.hash_seed_independent',
+                     {'concrete': True, 'cases': bad[:6]})] if bad else []
+  for c in cands:
+    c.job = job.name
   return JobResult(job.name, st, cands, [], {}, samples=[
-      f'sha256 under PYTHONHASHSEED 1 / 4242: {hs}'])
+      f'{n} (skeleton, recipe) cases x PYTHONHASHSEED {HASH_SEEDS} in fresh '
+      'processes: sha256 of quantize() output identical'])
 
 
 # ---------------------------------------------------------------------------
@@ -513,7 +572,14 @@ def job_hashseed(job):
 def replay(c):
   d = c['data']
   if d.get('concrete'):
-    return True, 'hash-seed', str(d['hashes'])
+    steps, names = _hashseed_steps('thorough')
+    keep = [i for i, nm in enumerate(names) if nm in d['cases']]
+    res = _hashseed_run([steps[i] for i in keep])
+    bad = [names[i] for k, i in enumerate(keep)
+           if len({r[k] for r in res}) != 1]
+    return bool(bad), 'output bytes depend on PYTHONHASHSEED', (
+        f'quantize() output differs between fresh processes with '
+        f'PYTHONHASHSEED {HASH_SEEDS} for {bad[:4]}')
   if d.get('concrete_bytes'):
     fam = P.skeleton_family('thorough')
     mb = fam[d['skeleton']]
